@@ -225,8 +225,14 @@ func (c *Ctx) structSort(t types.Type, u *types.Struct) string {
 	if _, ok := t.(*types.Struct); ok {
 		name = "S_anon_" + sanitize(fmt.Sprintf("%x", hashStr(u.String())))
 	}
+	// types of a Go-internal package can share their short name with a public one (internal/sync.Mutex
+	// vs sync.Mutex): they always carry a hash of the full path, so names do not depend on visit order
+	if n, ok := t.(*types.Named); ok && n.Obj().Pkg() != nil {
+		if pp := n.Obj().Pkg().Path(); (strings.HasPrefix(pp, "internal/") || strings.Contains(pp, "/internal/")) && !strings.HasPrefix(pp, modulePrefix) {
+			name += fmt.Sprintf("_%x", hashStr(t.String()))
+		}
+	}
 	if prev, ok := c.structOf[name]; ok && prev != u {
-		// same short name, different type (e.g. sync.Mutex vs internal/sync.Mutex)
 		name += fmt.Sprintf("_%x", hashStr(t.String()))
 	}
 	if c.sortSeen[name] {
